@@ -248,6 +248,35 @@ def run(ctx):
         except Exception as e:  # noqa: BLE001
             rec["outcome"], rec["detail"] = "different", f"built from {srep(intended):.40}: disassembler raises {type(e).__name__}".replace('"', "'")
         recs.append(rec)
+    # third half: an opcode object built without stored bytes, whose bytes were already asked for (by an earlier dumps(), or by
+    # any later insert, which sizes the enclosing frame), is given another argument: what is serialised afterwards is the new one
+    def readback(enc, name):
+        ops = list(pickletools.genops(enc + (b"" if name == "STOP" else b".")))
+        return ops[0][0].name, ops[0][1]
+    prev = {}
+    for name, thunk, intended in opcode_cases(fk):
+        if name in prev and intended is not None:
+            th0, int0 = prev[name]
+            try:
+                plain = readback(thunk().encode(), name)
+                if plain[0] != name or type(plain[1]) is not type(intended) or plain[1] != intended or int0 == intended:
+                    raise ValueError("encoder itself is off for this value: the encode half reports it")
+                op = th0()
+                first = op.data
+                holder = fk.Pickled([op, fk.Stop()])
+                holder.dumps()
+                op.arg = thunk().arg
+                got = readback(holder.dumps()[:-1], name)
+            except Exception:  # noqa: BLE001 - not applicable to this pair
+                prev[name] = (thunk, intended)
+                continue
+            rec = {"id": len(recs), "kind": "encode", "cls": name, "via": "retarget", "value": srep(intended)[:60], "outcome": "", "detail": ""}
+            same = got[0] == name and type(got[1]) is type(intended) and got[1] == intended
+            rec["outcome"] = "same" if same else "different"
+            if not same:
+                rec["detail"] = f"argument changed from {srep(int0):.30} to {srep(intended):.30} after the bytes were read once: serialised as {got[0]} {srep(got[1]):.30}".replace('"', "'")
+            recs.append(rec)
+        prev[name] = (thunk, intended)
     for rec in recs:
         rec.pop("_want", None)
     verdicts = tv.validate(ctx, "ConstTrace", recs, batch=20000)
